@@ -1,6 +1,7 @@
 import Ptn.C05.Core
 import Ptn.C05.Tree
 import Ptn.C05.Discipline
+import Ptn.C05.Heff
 /-! Property theorems for C05.  `Core.lean`: duration totals of the three schedules for arbitrary
 segment lists (per segment edge, under the hypotheses `Nodup` / last-two-adjacent).  `Tree.lean`:
 the same totals for every well-formed tree with the segments computed from the C17 model of the
